@@ -843,6 +843,11 @@ class _Activation:
             if not init:
                 init = None
 
+        if kd == 'DoStmt' and self.u.const_value(cond) == 0:
+            # do { ... } while (0): a block, not a loop
+            bctx = _Ctx(brk=k, cont=k, ret=ctx.ret)
+            return self.exec_stmt(body, st, bctx, k)
+
         def after_init(s0):
             hs = self.havoc_for_loop(n, [cond, inc, body], s0)
             hs.loopdepth += 1
@@ -1121,6 +1126,9 @@ class _Activation:
         return d.get('storageClass') != 'extern' and did not in gids
 
     def index_key(self, b, i):
+        # *&x  ->  x
+        if b[0] == '&' and is_c(i, 0):
+            return b[1]
         # normalise *(p + j) / (p+j)[i]  ->  p[j+i]
         if b[0] == '+':
             return ('i', b[1], add(b[2], i))
